@@ -12,6 +12,7 @@ import (
 	"github.com/alecthomas/participle/v2"
 	"pgregory.net/rapid"
 
+	"verifharness/fixtures"
 	"verifharness/gram"
 	"verifharness/vstat"
 )
@@ -196,6 +197,18 @@ func hasCycle(g *gram.Grammar) bool {
 }
 
 func checkC08Build(c *c08Case, r *vstat.Run) (outcome, *gram.Built) {
+	if strings.HasPrefix(c.Static, "example:") {
+		// the repository's example grammars (ported as fixtures, built when the test binary starts): none is left-recursive
+		built, msg := fixtures.ExampleBuild(strings.TrimPrefix(c.Static, "example:"))
+		if r != nil {
+			r.Eval()
+			r.Count("example_grammar")
+		}
+		if !built {
+			return violationf("rejected-non-left-recursive", "Build rejected the example grammar %s, which is not left recursive: %s", c.Static, msg), nil
+		}
+		return outcome{}, nil
+	}
 	if c.Static != "" {
 		for _, s := range staticLRs {
 			if s.name != c.Static {
@@ -338,6 +351,12 @@ func checkC08Parse(c *c08Case, b *gram.Built, r *vstat.Run) outcome {
 func TestC08(t *testing.T) {
 	debug.SetMaxStack(64 << 20)
 	runProp(t, "C08", c08Rule, func(t *rapid.T, r *vstat.Run) {
+		if rapid.IntRange(0, 99).Draw(t, "example") == 0 {
+			c := &c08Case{Static: "example:" + rapid.SampledFrom(fixtures.Examples).Draw(t, "examplegrammar")}
+			o, _ := checkC08Build(c, r)
+			report(t, r, o, c)
+			return
+		}
 		if rapid.IntRange(0, 24).Draw(t, "static") == 0 {
 			s := staticLRs[rapid.IntRange(0, len(staticLRs)-1).Draw(t, "fixture")]
 			c := &c08Case{Static: s.name}
